@@ -45,6 +45,8 @@ class Ctx:
     proc = None       # emulated process on whose behalf real code currently runs
     tokenfile = None  # TokenFile whose watch() is running
     early = None      # name of the file whose watcher thread finishes at once (startrace)
+    firing = None     # (process, file name) of the watcher thread being run by the controller
+    joblock = 0       # job locks currently held by that thread
 
 
 class FakeLoop:
@@ -79,9 +81,50 @@ class IpcShim:
         pass
 
 
+class TrackedJobLock:
+    """fasteners.InterProcessLock as seen by experimaestro.tokens: the real lock, plus a count of
+    the job locks held by the watcher thread that the controller is running."""
+
+    def __init__(self, path, *a, **kw):
+        self.lock = REAL_FASTENERS.InterProcessLock(path, *a, **kw)
+        self.job = str(path).endswith(".lock") and not str(path).endswith("token.lock")
+
+    def __enter__(self):
+        self.lock.__enter__()
+        if self.job and Ctx.firing is not None:
+            Ctx.joblock += 1
+        return self
+
+    def __exit__(self, *a):
+        if self.job and Ctx.firing is not None:
+            Ctx.joblock -= 1
+        return self.lock.__exit__(*a)
+
+    def acquire(self, *a, **kw):
+        return self.lock.acquire(*a, **kw)
+
+    def release(self):
+        return self.lock.release()
+
+
+REAL_FASTENERS = T.fasteners
+ORIG_DELETE = T.TokenFile.delete
+
+
 def install_shims():
     T.ipcom = lambda: IpcShim()
     T.threading = types.SimpleNamespace(Lock=threading.Lock, Thread=ParkedThread)
+    T.fasteners = types.SimpleNamespace(InterProcessLock=TrackedJobLock)
+
+    def delete(self):
+        if Ctx.firing is not None and Ctx.joblock == 0:
+            # the watcher thread deletes outside the job lock: between leaving the lock and this
+            # call anything can happen; the controller decides when the deletion takes place
+            Ctx.firing[0].armed.append((self.path.name, self))
+            return
+        return ORIG_DELETE(self)
+
+    T.TokenFile.delete = delete
     orig_watch = T.TokenFile.watch
 
     def watch(self):
@@ -123,6 +166,7 @@ class EProc:
         self.obs = False
         self.evq = []        # (kind, name)
         self.watchers = []   # (name, run)
+        self.armed = []      # (name, TokenFile): pinned watcher threads past their test, about to delete
         self.deps = {}       # jid -> CounterTokenDependency
         self.locks = {}      # jid -> (Locks, CounterTokenLock)
 
@@ -165,14 +209,16 @@ class FsWorld:
 
     def emit(self, before, after, skip=None):
         evs = []
+        # (within one step deletions come first: _update removes unwritten files before acquire creates)
+        # (unwritten files first: they are removed by _update itself, a watcher thread comes after it)
+        for n in sorted(before, key=lambda n: (before[n] > 0, n)):
+            if n not in after:
+                evs.append(("deleted", n))
         for n in sorted(after):
             if n not in before:
                 evs.append(("created", n))
             elif before[n] == 0 and after[n] > 0:
                 evs.append(("modified", n))
-        for n in sorted(before):
-            if n not in after:
-                evs.append(("deleted", n))
         for ev in evs:
             for pr in self.procs:
                 if pr.alive and pr.obs and pr is not skip:
@@ -197,11 +243,15 @@ class FsWorld:
                         if size > 0 and self.jobs[i]["phase"] in (IDLE, ENDED, DONE):
                             st.append(["startrace", p, i])
                 continue
-            if not self.creating_in(p):
+            if not self.creating_in(p) or self.sc.get("killc", True):
+                # (also between open() and write() of its token file)
                 st.append(["kill", p])
+            if not self.creating_in(p):
                 if pr.obs:
                     for i in range(len(pr.evq)):
                         st.append(["deliver", p, i])
+            for name in sorted(set(n for n, _ in pr.armed)):
+                st.append(["firedelete", p, int(name[1:-len(".token")])])
             for name in sorted(set(n for n, _ in pr.watchers)):
                 j = self.jobs[int(name[1:-len(".token")])]
                 if j["phase"] in (IDLE, ENDED, DONE):
@@ -215,6 +265,8 @@ class FsWorld:
                 st.append(["jobkill", i])
             if j["orphan"] or not pr.alive:
                 continue
+            if j["phase"] == DONE and self.sc.get("resubmit", True):
+                st.append(["resubmit", p, i])
             if j["phase"] == IDLE and lf and i in pr.deps and pr.deps[i].currentstatus == DependencyStatus.OK:
                 st.append(["acquire", p, i])
             if j["phase"] == CREATING:
@@ -235,13 +287,24 @@ class FsWorld:
             p = op[1]
             pr = self.procs[p]
             Ctx.proc = pr
+            # what __init__ itself removes (unwritten token files in its first _update; with `startrace`
+            # the file of the watcher thread that finishes at once) disappears before the directory watch
+            # of the new process exists
+            skip = pr
             if k == "startrace":
                 Ctx.early = "j%d.token" % op[2]
-                skip = pr   # the new process has no directory watch yet when the file disappears
-            pr.alive, pr.obs, pr.evq, pr.watchers, pr.deps, pr.locks = True, True, [], [], {}, {}
-            pr.token = T.CounterToken("tok", self.tokdir, self.total)
+            pr.alive, pr.obs, pr.evq, pr.watchers, pr.deps, pr.locks, pr.armed = True, True, [], [], {}, {}, []
+            try:
+                pr.token = T.CounterToken("tok", self.tokdir, self.total)
+            except Exception as e:  # noqa
+                # CounterToken.__init__ raised: this scheduler has no token object, it does not start
+                pr.alive, pr.obs, pr.watchers, pr.token, pr.handler = False, False, [], None, None
+                res = "raised:" + type(e).__name__
+                Ctx.early = None
             # submission of the jobs of this scheduler (Scheduler.aio_submit l.581-588)
             for i, j in enumerate(self.jobs):
+                if not pr.alive:
+                    break
                 if j["p"] == p and j["phase"] == IDLE and not j["orphan"]:
                     dep = pr.token.dependency(j["c"])
                     dep.target = j["job"]
@@ -249,17 +312,18 @@ class FsWorld:
                     dep.origin.dependents.add(dep)
                     dep.check()
                     pr.deps[i] = dep
-            if k == "startrace" and Ctx.early is not None:
+            if k == "startrace" and Ctx.early is not None and pr.alive:
                 Ctx.early = None
                 res = "raised:NoEarlyWatcher"
         elif k == "kill":
             p = op[1]
             pr = self.procs[p]
-            pr.alive, pr.obs, pr.evq, pr.watchers, pr.deps, pr.locks = False, False, [], [], {}, {}
+            pr.alive, pr.obs, pr.evq, pr.watchers, pr.deps, pr.locks, pr.armed = False, False, [], [], {}, {}, []
             pr.token, pr.handler = None, None
             for j in self.jobs:
                 if j["p"] == p and not j["orphan"]:
-                    if j["phase"] == HOLDING:
+                    if j["phase"] in (HOLDING, CREATING):
+                        # (CREATING: killed between open() and write(): the empty file stays)
                         j["phase"], j["orphan"] = ENDED, True
                     elif j["phase"] in (RUNNING, ENDED):
                         j["orphan"] = True
@@ -290,7 +354,10 @@ class FsWorld:
             i = op[1]
             j = self.jobs[i]
             f = self.tokdir / ("j%d.token" % i)
-            f.write_bytes(j["saved"])
+            if f.exists():
+                f.write_bytes(j["saved"])
+            # else: the file was unlinked while its creator had it open: the creator's write goes to the
+            # unlinked inode, nothing reappears in the directory
             j["phase"] = HOLDING
         elif k == "launch":
             # Job.aio_run: the process is started and its pid file written (under the job lock)
@@ -316,7 +383,30 @@ class FsWorld:
                 pr.locks.pop(i).release()
             except Exception as e:  # noqa
                 res = "raised:" + type(e).__name__
-            j["phase"] = IDLE if j["phase"] == HOLDING else DONE
+            if not res.startswith("raised"):
+                j["phase"] = IDLE if j["phase"] == HOLDING else DONE
+            else:
+                pr.locks[i] = Locks()
+        elif k == "resubmit":
+            p, i = op[1], op[2]
+            pr, j = self.procs[p], self.jobs[i]
+            Ctx.proc = pr
+            dep = pr.token.dependency(j["c"])
+            dep.target = j["job"]
+            dep.loop = self.loop
+            dep.origin.dependents.add(dep)
+            dep.check()
+            pr.deps[i] = dep
+            j["phase"] = IDLE
+        elif k == "firedelete":
+            p = op[1]
+            pr = self.procs[p]
+            idx = [n for n, _ in pr.armed].index("j%d.token" % op[2])
+            name, tf = pr.armed.pop(idx)
+            try:
+                ORIG_DELETE(tf)
+            except Exception as e:  # noqa
+                res = "raised:" + type(e).__name__
         elif k == "deliver":
             p, idx = op[1], op[2]
             pr = self.procs[p]
@@ -339,10 +429,13 @@ class FsWorld:
             # watcher threads of one process for the same file are indistinguishable: take the oldest
             idx = [n for n, _ in pr.watchers].index("j%d.token" % op[2])
             name, run = pr.watchers.pop(idx)
+            Ctx.firing, Ctx.joblock = (pr, name), 0
             try:
                 run()
             except Exception as e:  # noqa
                 res = "raised:" + type(e).__name__
+            finally:
+                Ctx.firing, Ctx.joblock = None, 0
         else:
             raise ValueError(k)
         Ctx.proc = None
@@ -364,7 +457,8 @@ class FsWorld:
                 continue
             tk = pr.token
             procs.append(dict(avail=int(tk.available), cache=sorted([n, int(tf.count)] for n, tf in tk.cache.items()),
-                              obs=pr.obs, evq=[list(e) for e in pr.evq], watch=sorted(n for n, _ in pr.watchers)))
+                              obs=pr.obs, evq=[list(e) for e in pr.evq], watch=sorted(n for n, _ in pr.watchers),
+                              armed=sorted(n for n, _ in pr.armed)))
         jobs = []
         for i, j in enumerate(self.jobs):
             pr = self.procs[j["p"]]
@@ -375,7 +469,8 @@ class FsWorld:
         return dict(disk=disk, procs=procs, jobs=jobs)
 
 
-DEFAULT_W = dict(start=6, startrace=3, kill=1, acquire=8, write=10, launch=8, end=6, jobkill=1, release=8, deliver=10, fire=6)
+DEFAULT_W = dict(start=6, startrace=3, kill=1, acquire=8, write=10, launch=8, end=6, jobkill=1, release=8, deliver=10, fire=6,
+                 firedelete=3, resubmit=2)
 
 
 def run_fs(sc):
@@ -406,7 +501,7 @@ def run_fs(sc):
                     break
                 # late phase: drain (no new acquisitions) so that runs end quiescent
                 if len(out) >= sc.get("nsteps", 40) - sc.get("drain", 0):
-                    en2 = [e for e in en if e[0] not in ("acquire", "kill", "start", "startrace")]
+                    en2 = [e for e in en if e[0] not in ("acquire", "kill", "start", "startrace", "resubmit")]
                     en = en2 or en
                 op = rng.choices(en, [weights[e[0]] for e in en])[0]
                 if op[0] == "kill":
